@@ -871,6 +871,19 @@ class Engine:
             if fs is not None and fs.is_property and f"{cls}.{attr}" not in self.overrides:
                 yield from self.nonnull(obj, st, node, lambda st2: self.inline(fs, [obj], {}, st2, node))
                 return
+            if (fs is None and self.schema.get(cls, {}).get("open_fields") and f"{cls}.{attr}" not in self.overrides
+                    and self.schema_lookup(cls, "methods", attr) is None):
+                # a field the schema does not know: whatever was written on this path, else None or some opaque string
+                key = (f"{cls}.{attr}", obj.term.get_id())
+                if key in st.pyheap:
+                    yield st, st.pyheap[key]
+                    return
+                unset = fresh(BOOL, f"{attr}.is_none")
+                for st1, isnone in self.fork(st, unset.term, f"open-field@{getattr(node, 'lineno', '?')}"):
+                    val = NONE if isnone else fresh(STR, attr)
+                    st1.pyheap[key] = val
+                    yield st1, val
+                return
             if f"{cls}.{attr}" in self.overrides and ((fs is None and self.schema_lookup(cls, "methods", attr) is None)
                                                       or (fs is not None and fs.is_property)):
                 yield from self.nonnull(obj, st, node, lambda st2: self.overrides[f"{cls}.{attr}"](self, st2, obj, [], {}, node))
@@ -1314,6 +1327,16 @@ class Engine:
                 return
             owner, kind = self.field_kind(cls, attr)
             if kind is None:
+                if self.schema.get(cls, {}).get("open_fields"):
+                    # a field the schema does not know (e.g. a cache added by an edit): python-level, counted as a write
+                    for st1, ok in self.fork(st, obj.term != NULL, "nonnull-set"):
+                        if ok:
+                            st1.pyheap[(f"{cls}.{attr}", obj.term.get_id())] = v
+                            st1.writes.add(f"{cls}.{attr}")
+                            yield st1
+                        else:
+                            self.raise_exc(st1, "AttributeError", node)
+                    return
                 raise Untranslatable(f"assignment to undeclared field {cls}.{attr}", node)
             for st1, ok in self.fork(st, obj.term != NULL, "nonnull-set"):
                 if ok:
